@@ -352,7 +352,7 @@ def sparse_task(T, name, n, p, focus='C06'):
 for _d in DATAFITS:
     for _f in ('C06', 'C09'):
         add_task(_f, f'single_task:{_d.name}[dense,2x2]', dense_task, strength='B', name=_d.name, n=2, p=2, focus=_f)
-        add_task(_f, f'single_task:{_d.name}[sparse,2x2]', sparse_task, strength='B', name=_d.name, n=2, p=2, focus=_f)
+        add_task([_f, 'C10'] if _f == 'C06' else _f, f'single_task:{_d.name}[sparse,2x2]', sparse_task, strength='B', name=_d.name, n=2, p=2, focus=_f)
         add_task(_f, f'single_task:{_d.name}[dense,3x2]', dense_task, strength='B', tier='thorough', name=_d.name, n=3, p=2, focus=_f)
         add_task(_f, f'single_task:{_d.name}[sparse,3x2]', sparse_task, strength='B', tier='thorough', name=_d.name, n=3, p=2, focus=_f)
 describe('C09', level='proof', floor=20,
